@@ -59,3 +59,6 @@ pub use self::os::{OsIpcSelectionResult, OsIpcSender, OsIpcSharedMemory};
 
 #[cfg(test)]
 mod test;
+
+#[cfg(any(kani, ipc_channel_verif))]
+pub use self::os::verif_hooks;
